@@ -357,6 +357,7 @@ func runC16(c *Ctx) {
 	}
 	cs := NewClientSim(c, connType)
 	cs.S.PreemptDen = uint32(pickFrom(t, 0, 2, 3, 4, 8, 16))
+	maybeStalls(c, cs.S)
 	r := &c16run{c: c, cs: cs, txs: map[bitcoin.Hash32]*wire.MsgTx{}, hdrs: map[bitcoin.Hash32]*wire.BlockHeader{}}
 	r.reqTimeout = time.Duration(pickFrom(t, 2, 3, 5, 10)) * time.Second
 	r.msgTimeout = time.Duration(pickFrom(t, 2, 5, 30)) * time.Second
@@ -454,8 +455,10 @@ func runC16(c *Ctx) {
 	done := false
 	simrt.Go("driver", func() {
 		defer func() { done = true }()
-		cs.Start()
-		cs.H1.ReadyMode = "next"
+		simrt.NoPreempt(func() { // the application is configured before the client runs
+			cs.Start()
+			cs.H1.ReadyMode = "next"
+		})
 		// wait for the handshake
 		deadline := cs.S.Now() + 20*time.Second
 		for cs.S.Now() < deadline {
